@@ -354,8 +354,8 @@ Payload(x) == IF x.k = "s" THEN x.v ELSE EncSeq(x.e)
 Off(x) == IF x.k = "s" THEN 128 ELSE 192
 HasHeader(x) == ~(x.k = "s" /\ Len(x.v) = 1 /\ x.v[1] < 128)
 NodeOps == {"nonmin", "wrap1", "leadzero", "oversize", "undersize", "nest", "unnest", "tostring", "tolist", "emptyswap",
-            "dropelem", "addelem", "dupelem", "swapelem", "setbyte2", "setbyteff", "setzero", "inflate", "deflate",
-            "huge3", "huge4", "huge8"}
+            "dropelem", "addelem", "dupelem", "swapelem", "setbyte1", "setbyte2", "setbyteff", "setzero", "grow9", "grow33",
+            "inflate", "deflate", "huge3", "huge4", "huge8"}
 ByteOps == {"trunc1", "trunc2", "trunchalf", "append00", "append80", "appendc0", "flipfirst0", "flipfirst7", "fliplast0", "flipmid7"}
 \* operators whose result can never be an encoding
 NonCanonOps == {"nonmin", "wrap1", "huge3", "huge4", "huge8", "trunc1", "trunc2", "trunchalf", "append00", "append80", "appendc0"}
@@ -375,6 +375,9 @@ Applicable(op, x) ==
     [] op = "addelem"   -> x.k = "l"
     [] op = "dupelem"   -> x.k = "l" /\ Len(x.e) > 0
     [] op = "swapelem"  -> x.k = "l" /\ Len(x.e) > 1 /\ x.e[1] # x.e[2]
+    [] op = "setbyte1"  -> x.k = "s" /\ Len(x.v) <= 1 /\ x.v # <<1>>
+    [] op = "grow9"     -> x.k = "s" /\ Len(x.v) < 9
+    [] op = "grow33"    -> x.k = "s" /\ Len(x.v) < 33
     [] op = "setbyte2"  -> x.k = "s" /\ Len(x.v) <= 1
     [] op = "setbyteff" -> x.k = "s" /\ Len(x.v) <= 1
     [] op = "setzero"   -> x.k = "s" /\ Len(x.v) = 1
@@ -399,6 +402,9 @@ NewNode(op, x) ==
     [] op = "addelem"   -> Lst(x.e \o <<S(<<>>)>>)
     [] op = "dupelem"   -> Lst(x.e \o <<x.e[Len(x.e)]>>)
     [] op = "swapelem"  -> Lst(<<x.e[2], x.e[1]>> \o SubSeq(x.e, 3, Len(x.e)))
+    [] op = "setbyte1"  -> S(<<1>>)                                                      \* the neighbours of a small enumeration
+    [] op = "grow9"     -> S(x.v \o Fill(9 - Len(x.v), 255))                             \* longer than a consumer that expects <= 8 bytes
+    [] op = "grow33"    -> S(x.v \o Fill(33 - Len(x.v), 255))                            \* ... <= 32 bytes
     [] op = "setbyte2"  -> S(<<2>>)
     [] op = "setbyteff" -> S(<<255>>)
     [] op = "setzero"   -> S(<<0>>)
@@ -486,6 +492,22 @@ Label(op, i) == op \o "@" \o ToString(i)
 \* The successors of a case are computed as a SET by a pure expression: inside an action TLC re-evaluates a LET
 \* definition for every binding of an enclosing quantifier (here: one parse per node and operator).
 MutCase(cc, b, op, i) == [ty |-> cc.ty, sid |-> cc.sid, b |-> b, mut |-> Append(cc.mut, Label(op, i)), op |-> op]
+\* Pairwise VALUE mutation of the small structs: what a decoder does AFTER the RLP layer accepted (a custom DecodeRLP that
+\* post-processes its fields, a handler that consumes them) depends on combinations such as "version = 1 and data longer
+\* than the 8 bytes its consumer expects".  For EVERY struct-like node with at most PairMax elements (not only the nodes
+\* selected for the other operators) every pair of string children takes every pair of boundary values.
+PairMax == 4
+PairVals == << <<>>, <<1>>, <<2>>, <<255>>, Fill(9, 255), Fill(33, 255) >>
+PairNames == <<"e", "1", "2", "ff", "g9", "g33">>
+PairMutants(cc, it, ps) ==
+   UNION { LET x == At(it, ps[i]) IN
+           IF x.k # "l" \/ Len(x.e) < 2 \/ Len(x.e) > PairMax THEN {}
+           ELSE { MutCase(cc, Enc(Subst(it, ps[i], Lst([x.e EXCEPT ![m[1]] = S(PairVals[m[3]]), ![m[2]] = S(PairVals[m[4]])]))),
+                          "pair", i * 100000 + m[1] * 10000 + m[2] * 1000 + m[3] * 10 + m[4])
+                  : m \in { q \in (1..Len(x.e)) \X (1..Len(x.e)) \X (1..6) \X (1..6) :
+                               q[1] < q[2] /\ x.e[q[1]].k = "s" /\ x.e[q[2]].k = "s"
+                               /\ (x.e[q[1]].v # PairVals[q[3]] \/ x.e[q[2]].v # PairVals[q[4]]) } }
+         : i \in DOMAIN ps }
 NodeMutants(cc) ==
    LET p == Parse(cc.b) IN
    IF ~p.ok THEN {}
@@ -493,6 +515,7 @@ NodeMutants(cc) ==
             ps == PathSeq(it)
             ms == { m \in NodesOf(cc, Len(ps)) \X NodeOps : Applicable(m[2], At(it, ps[m[1]])) }
         IN { MutCase(cc, Enc(Subst(it, ps[m[1]], NewNode(m[2], At(it, ps[m[1]])))), m[2], m[1]) : m \in ms }
+           \cup (IF cc.mut = <<>> THEN PairMutants(cc, it, ps) ELSE {})
 ByteMutants(cc) == { MutCase(cc, ByteMut(op, cc.b), op, 0) : op \in { o \in ByteOps : ByteApplicable(o, cc.b) } }
 Next == \/ /\ Scope \in {"typed", "seeds", "all"}
            /\ Len(c.mut) < MaxMut
